@@ -584,21 +584,21 @@ func (co *ClipperOffset) doBevel(path Path64, j, k int) {
 
 	if j == k {
 		pt1 = Point64{
-			X: int64(float64(path[j].X) - absDelta*co.normals[j].X),
-			Y: int64(float64(path[j].Y) - absDelta*co.normals[j].Y),
+			X: int64(math.Round(float64(path[j].X) - absDelta*co.normals[j].X)),
+			Y: int64(math.Round(float64(path[j].Y) - absDelta*co.normals[j].Y)),
 		}
 		pt2 = Point64{
-			X: int64(float64(path[j].X) + absDelta*co.normals[j].X),
-			Y: int64(float64(path[j].Y) + absDelta*co.normals[j].Y),
+			X: int64(math.Round(float64(path[j].X) + absDelta*co.normals[j].X)),
+			Y: int64(math.Round(float64(path[j].Y) + absDelta*co.normals[j].Y)),
 		}
 	} else {
 		pt1 = Point64{
-			X: int64(float64(path[j].X) + co.groupDelta*co.normals[k].X),
-			Y: int64(float64(path[j].Y) + co.groupDelta*co.normals[k].Y),
+			X: int64(math.Round(float64(path[j].X) + co.groupDelta*co.normals[k].X)),
+			Y: int64(math.Round(float64(path[j].Y) + co.groupDelta*co.normals[k].Y)),
 		}
 		pt2 = Point64{
-			X: int64(float64(path[j].X) + co.groupDelta*co.normals[j].X),
-			Y: int64(float64(path[j].Y) + co.groupDelta*co.normals[j].Y),
+			X: int64(math.Round(float64(path[j].X) + co.groupDelta*co.normals[j].X)),
+			Y: int64(math.Round(float64(path[j].Y) + co.groupDelta*co.normals[j].Y)),
 		}
 	}
 
